@@ -199,7 +199,14 @@ def in_domain(pool, op):
     if op["op"] != "remove":
         return True
     us = op["us"]
-    return len(set(us)) == len(us) and all(u in pool.inside for u in us)
+    if len(set(us)) != len(us):
+        return False
+    if op["kind"] == "obstacle":
+        # remove_obstacle of an obstacle that is not contained only warns - as long as no contained obstacle has its id
+        # (then the library would remove that one): a stale handle whose id has meanwhile gone to a lanelet / sign / ...
+        held = {pool.U[i]["id"] for i in pool.inside if pool.U[i]["k"] in OBST_KINDS}
+        return all(u in pool.inside or pool.U[u]["id"] not in held for u in us)
+    return all(u in pool.inside for u in us)
 
 
 # ------------------------------------------------------------------------------------ running one case
@@ -472,7 +479,13 @@ def make_chooser(rng, U, n_steps, wild):
         inside = [i for i in pool.inside if U[i]["k"] in kinds]
         absent = [i for i in range(len(U)) if U[i]["k"] in kinds and i not in pool.inside]
         as_list = rng.random() < 0.45
-        if wild and absent and rng.random() < 0.15:
+        stale = [i for i in absent if kind == "obstacle" and U[i]["id"] in {U[j]["id"] for j in pool.inside
+                                                                           if U[j]["k"] not in OBST_KINDS}
+                 and U[i]["id"] not in {U[j]["id"] for j in pool.inside if U[j]["k"] in OBST_KINDS}]
+        if stale and rng.random() < 0.5:
+            us = [rng.choice(stale)]         # a stale obstacle handle whose id now belongs to a network element
+            as_list = rng.random() < 0.3
+        elif wild and absent and rng.random() < 0.15:
             us = [rng.choice(absent)] + (rng.sample(inside, min(len(inside), 1)) if as_list else [])
             rng.shuffle(us)
         elif inside:
